@@ -834,7 +834,7 @@ static void Setup(Variant& v, const std::vector<DataID>& x1, const std::vector<s
 
 static std::vector<Variant> g_variants(3);
 static Stats g_stats[3];
-static long g_cap = 60;         // cap on sampled combinations per (template, argument types)
+static long g_cap = 30;         // cap on sampled depth-2 combinations per (template, argument types, deep holes)
 static long g_tried = 0, g_wellTyped = 0;
 
 //! Type-check once, evaluate under every variant (typing is the same in all of them).
@@ -874,16 +874,19 @@ struct Bucket {
   std::vector<Ex> deep{};     // depth 1
 };
 static std::map<std::string, Bucket> g_buckets;
-static std::string TypeKey(const Ex& e) { return e.text == "∅" || e.text == "Z" ? e.text : e.type; }
+static std::string TypeKey(const Ex& e) { return e.text == "∅" || e.text == "Z" ? "literal " + e.text : e.type; }
 
 //! Instantiate template t with closed arguments: `deepHoles` = how many holes take a depth-1
-//  argument (0: depth 1 result; 1: exhaustive; 2: sampled with cap). Typing depends on argument
+//  argument (0: depth 1 result, exhaustive; 1, 2: evenly sampled up to g_cap per type combination). Typing depends on argument
 //  types only, so a type combination rejected twice is not tried again.
 static void Enumerate(const Template& t, int deepHoles, std::vector<Ex>* out) {
   const auto holes = Holes(t);
   const size_t n = holes.size();
   std::vector<std::string> keys{};
-  for (const auto& [key, bucket] : g_buckets) keys.push_back(key);
+  for (const auto& [key, bucket] : g_buckets) {
+    if (n >= 3 && bucket.shallow.empty()) continue;  // ternary templates: argument types of atoms only
+    keys.push_back(key);
+  }
   std::vector<size_t> kidx(n, 0);
   for (;;) {  // over tuples of argument types
     bool kinds = true;
@@ -901,7 +904,10 @@ static void Enumerate(const Template& t, int deepHoles, std::vector<Ex>* out) {
           total *= lists.back()->size();
         }
         if (total == 0) continue;
-        const uint64_t stride = (deepHoles >= 2 && total > static_cast<uint64_t>(g_cap)) ? (total + g_cap - 1) / g_cap : 1;
+        bool allLogic = true;
+        for (size_t h = 0; h < n; ++h) allLogic = allLogic && holes[h] == '?';
+        const uint64_t cap = static_cast<uint64_t>(deepHoles == 0 ? (1L << 40) : allLogic ? 40 * g_cap : g_cap);
+        const uint64_t stride = total > cap ? (total + cap - 1) / cap : 1;
         for (uint64_t lin = 0; lin < total && (accepted || rejections < 2); lin += stride) {
           std::vector<const Ex*> args{};
           uint64_t rest = lin;
